@@ -1298,19 +1298,20 @@ func c15Items(tier string) []shutItem {
 	var out []shutItem
 	for _, p := range []int{ppIPFIX, ppV9, ppV5, ppSFlow} {
 		flow := p == ppIPFIX || p == ppV9
-		if tier == "thorough" {
-			for _, w := range []int{1, 2} {
-				for _, cap := range []int{1000, 1} {
-					out = append(out, shutItem{"idle", p, w, cap, nil, 0, 3, false, false, false, 0, false, false, false})
-					out = append(out, shutItem{"data before the signal", p, w, cap, []string{"dataB-short", "dataA-mid"}, 0, 2, false, false, false, 0, false, false, false})
-					out = append(out, shutItem{"data around the signal", p, w, cap, []string{"dataB-short", "dataA-mid", "dataB-short"}, 2, 2, false, false, false, 0, false, false, false})
-					if flow {
-						out = append(out, shutItem{"template burst around the signal", p, w, cap, []string{"inband-tpl", "inband-data", "template", "dataB-short"}, 2, 2, false, false, false, 0, false, false, false})
-					}
-				}
+		if tier == "thorough" { // everything the quick tier has, plus deeper bounds / more workers / the queue of one entry
+			F := false
+			out = append(out, shutItem{"idle", p, 2, 1000, nil, 0, 2, F, F, F, 0, F, F, F})
+			out = append(out, shutItem{"idle", p, 1, 1, nil, 0, 2, F, F, F, 0, F, F, F})
+			out = append(out, shutItem{"data before the signal", p, 2, 1000, []string{"dataB-short", "dataA-mid"}, 0, 2, F, F, F, 0, F, F, F})
+			out = append(out, shutItem{"data before the signal", p, 1, 1, []string{"dataB-short", "dataA-mid"}, 0, 2, F, F, F, 0, F, F, F})
+			out = append(out, shutItem{"data around the signal", p, 1, 1, []string{"dataB-short", "dataA-mid", "dataB-short"}, 2, 2, F, F, F, 0, F, F, F})
+			out = append(out, shutItem{"data around the signal", p, 2, 1000, []string{"dataB-short", "dataA-mid", "dataB-short"}, 2, 2, F, F, F, 0, F, F, F})
+			if flow {
+				out = append(out, shutItem{"template burst around the signal", p, 2, 1000, []string{"inband-tpl", "inband-data", "template", "dataB-short"}, 2, 2, F, F, F, 0, F, F, F})
+				out = append(out, shutItem{"template burst around the signal", p, 1, 1, []string{"inband-tpl", "inband-data", "template", "dataB-short"}, 2, 1, F, F, F, 0, F, F, F})
 			}
-			out = append(out, shutItem{"signal during start-up between two runs", p, 2, 1000, nil, 0, 2, false, false, false, 0, true, false, false})
-			continue
+			out = append(out, shutItem{"signal during start-up between two runs", p, 2, 1000, nil, 0, 2, F, F, F, 0, true, F, F})
+			out = append(out, shutItem{"real main(): data around the signal, two workers", p, 2, 1000, []string{"dataB-short", "dataA-mid"}, 1, 1, F, F, F, 0, F, true, F})
 		}
 		out = append(out, shutItem{"idle", p, 1, 1000, nil, 0, 2, false, false, false, 0, false, false, false})
 		b := 1
